@@ -7,6 +7,15 @@ import (
 // H11: Dial with the real dial(): connections cleaned up exactly once, before
 // the next is opened and before Dial returns; autoconf restored.
 func zzH11() {
+	// natively, a select with two ready cases inside the code under test is
+	// decided by the runtime: the scenario is repeated with the same inputs
+	for trial := 0; trial < zzNativeTrials(20); trial++ {
+		zzReplayRestart()
+		zzH11Once()
+	}
+}
+
+func zzH11Once() {
 	mode := Advertise
 	if zzNondetChoice("mode", 2) == 1 {
 		mode = Monitor
@@ -20,7 +29,11 @@ func zzH11() {
 	maxRounds := zzParam("rounds")
 	held := false
 	lastTaskNil := false
-	err := d.Dial(context.Background(), func(ctx context.Context, dctx *DialContext) error {
+	// cancellation may come during a back-off wait or while a socket is being
+	// opened (once per run)
+	ctx, cancel := context.WithCancel(context.Background())
+	zzCancel, zzCancelBudget, zzCancelled = cancel, 1, false
+	err := d.Dial(ctx, func(ctx context.Context, dctx *DialContext) error {
 		rounds++
 		// while the task runs: exactly the newest connection is open
 		for i, r := range zzConns {
@@ -44,6 +57,8 @@ func zzH11() {
 		return zzErrOf(k)
 	})
 	_ = held
+	zzCancel = nil
+	cancel()
 	// every connection ever opened was cleaned up exactly once
 	leak := false
 	for _, r := range zzConns {
